@@ -30,7 +30,7 @@ NPick == \E s \in Scenarios : Pick(s) /\ hist' = hist
 NSetup == /\ Setup
           /\ hist' = << [op |-> "new", ciph |-> sc.ciph, mode |-> sc.mode, dir |-> sc.dir, key |-> Hx!FromBytes(Key(sc)),
                          key2 |-> Hx!FromBytes(Key2(sc)), iv |-> Hx!FromBytes(IV(sc))] >>
-BufFor(n) == IF Bufs = {} THEN {<<"ie", "is", "de", "ds">>[R!Pick(Seed, 9, pos + 3 * n + sc.len, 4) + 1]} ELSE Bufs
+BufFor(n) == IF Bufs = {} THEN {<<"ie", "is", "de", "ds", "dl">>[R!Pick(Seed, 9, pos + 3 * n + sc.len, 5) + 1]} ELSE Bufs     \* dl: a destination longer than the source
 AltD4(n) == IF sc.mode = "hctr" /\ (sc.len % 16) # 0 THEN Hx!FromBytes(HctrD4(sc, sc.dir = "enc", win)) ELSE ""
 NCall(n) == /\ ncalls < MaxCalls
             /\ Call(n)
